@@ -51,6 +51,7 @@ class _BaseLSML(MahalanobisMixin):
     s_best = self._total_loss(M, vab, vcd, prior_inv)
     if self.verbose:
       print('initial loss', s_best)
+    it = 0  # (what is reported when max_iter == 0)
     for it in range(1, self.max_iter + 1):
       grad = self._gradient(M, vab, vcd, prior_inv)
       grad_norm = scipy.linalg.norm(grad)
